@@ -10,7 +10,7 @@ CLAIMED = {
              "using callee contracts only and the induction hypothesis on strict sub-terms. All inputs, no bound.",
         note="A1 real arithmetic; A5 immutable finite trees; A6 distinct names; spec tables (calculus rules, finite sums) restated in "
              "Lean/Mathlib; _gradient_iterative's traversal and gradient_quadratic_form are bounded/trusted (listed in evidence); "
-             "known findings D2, D3 are listed in known_findings.json",
+             "known finding D2 is listed in known_findings.json (D3 repaired, see DESIGN.md 12.4)",
         design="6 C02"),
     "C01": dict(
         text="evaluate() of every scalar kind, _build_evaluator (one obligation per node kind / operator / operand class), "
@@ -20,7 +20,7 @@ CLAIMED = {
              "the memo key and absence of exceptions are separate obligations.",
         note="A1 (two summation orders are the same real number), A2 NumPy model table, A5, A6; QuadraticForm (nested sums) and the "
              "iterative builder's stack discipline are bounded only; vector-valued ElementwisePower/ElementwiseUnary are outside "
-             "'scalar expression'; known findings D1, D2",
+             "'scalar expression'; known finding D2 (D1 repaired)",
         design="6 C01"),
     "C04": dict(
         text="The recursive degree routine, its cached/dispatching wrappers, Expression.degree (memo slot) and is_linear/is_quadratic are "
@@ -28,7 +28,7 @@ CLAIMED = {
              "against MvPolynomial.totalDegree is the Lean-checked spec table (C, X, +, -, neg, *, ^n, /c, finite sums). Unbounded in tree "
              "size and vector length (loop invariants with prefix folds).",
         note="A1, A5, A7 (no division by a literal 0); the memo slot _degree is written only by Expression.degree (scan); "
-             "_compute_degree_iterative's stack discipline is bounded (C15); known findings D6, D7",
+             "_compute_degree_iterative's stack discipline is bounded (C15); known finding D24 (D6, D7, D8 repaired)",
         design="6 C04"),
     "C05": dict(
         text="The LP extraction routines (_extract_constant_impl, _extract_all_coefficients_impl with its three accumulation loops, "
@@ -38,7 +38,7 @@ CLAIMED = {
              "permutation-of-a-finite-sum lemma and are proved for every variable order.",
         note="A1, A5, A6, A7; linearity hypothesis is the contract of is_linear (C04) restricted to the syntactic class LP extraction is "
              "specified on; LinearProgramExtractor.extract_* and the LPData assembly are not yet under contract (listed in evidence); "
-             "known findings D9, D10, D11, D12",
+             "known findings D9, D10, D11, D12, D24; LinearProgramExtractor.extract has the bounded stand-in native/bounded_lp.py",
         design="6 C05"),
     "C06": dict(
         text="solve_scipy and solve_lp are symbolically executed for every method class and every outcome of the external solver "
@@ -47,14 +47,14 @@ CLAIMED = {
              "bounds clause of the external contract; linprog's status map is proved injective.",
         note="A3 external contracts of scipy.optimize.minimize/linprog (result object arbitrary; success+bounds passed => within "
              "bounds; fun = objective(x); linprog success => feasible for the arrays passed); C05 for the LP arrays; "
-             "_build_solver_cache / LinearProgramExtractor.extract are contract-only (bounded); known findings D13, D14",
+             "_build_solver_cache is proved; LinearProgramExtractor.extract is contract-only (bounded); known finding D14 (D13 repaired)",
         design="6 C06"),
     "C07": dict(
         text="On every returning path of both drivers the reported objective value is proved equal to the objective expression's "
              "denotation at the returned point in the user's orientation, and the values dict is proved to hold exactly one entry "
              "per problem variable at the right position (loop invariant over the variable list).",
         note="A3 (fun = objective callable at x); C01/C05 contracts for the compiled objective / cost vector; Solution.__getitem__ "
-             "accessors not yet under contract; known findings D15 (+ D9, D10 through the constant term)",
+             "accessors not yet under contract; known findings D9, D10, D11 through the constant term (D15 repaired)",
         design="6 C07"),
     "C08": dict(
         text="Wiring obligations at the linprog call site of the real solve_lp: cost vector negated iff maximise, A_ub/b_ub/A_eq/b_eq/"
@@ -77,7 +77,7 @@ CLAIMED = {
              "(variables, _is_linear_problem, _lp_cache, _solver_cache) is proved to store what a fresh computation gives for the "
              "current model; drivers leave the model untouched on every exit.",
         note="external bound writes v.lb/v.ub := b (D17) are not yet an obligation; is_linear treated as a deterministic function of "
-             "the tree; known findings D20, D23",
+             "the tree (D20, D23 repaired)",
         design="6 C13"),
     "C16": dict(
         text="get_variables of every node kind (and the virtual contract used for dynamic dispatch), Constraint.get_variables, "
@@ -85,7 +85,7 @@ CLAIMED = {
              "constraints (membership at an arbitrary name), one entry per name, natural order, on both arms of the shortcut; "
              "get_bounds / n_variables follow that list.",
         note="sorted() modelled (A4); natural order is a predicate established by sorted(key=_natural_sort_key) only; the two worklist "
-             "helpers (_try_get_single_vector_source, _get_variables_iterative) are contract-only (bounded); known finding D20",
+             "helpers (_try_get_single_vector_source, _get_variables_iterative) are contract-only (bounded; block lemma for the iterative collector proved) (D20 repaired)",
         design="6 C16"),
     "C18": dict(
         text="Path obligations in both drivers: on every path reaching the external solver call, not (strict and some non-continuous "
@@ -121,8 +121,7 @@ CLAIMED = {
              "if two keys are equal under the __eq__ methods as written in the source (themselves proved: Variable/Parameter by name, "
              "interior nodes by identity), a result that met the function's proved contract for one key meets it for the other at "
              "every later parameter valuation; memo-key hashability (_hash assigned by __init__) is an obligation of the callers.",
-        note="A4 lru_cache semantics; eviction is irrelevant to soundness; known findings D16 (Parameter root through "
-             "_compile_cached), D1",
+        note="A4 lru_cache semantics; eviction is irrelevant to soundness; D16 repaired: 'a Parameter root is never memoised' is now a call-site precondition of _compile_cached; D1 repaired",
         design="6 C14"),
     "C03": dict(
         text="Row contract ROW(e, V): every entry k of a Jacobian row is a well-formed tree whose value at every regular point is "
@@ -164,7 +163,7 @@ CLAIMED = {
         note="proved: block lemmas per node kind/phase + the recursive twins; bounded (never counted as proved): traversal glue, "
              "checked natively on focus trees of depth<=3 and accumulations of up to 900 terms; _estimate_tree_depth trusted (only "
              "selects between twins with the same contract); RecursionError / interpreter stack depth is not modelled (A8); known "
-             "findings D18, D19, D8, D6, D7, D2, D1",
+             "finding D2 (D1, D6, D7, D8, D18, D19 repaired)",
         design="6 C15"),
     "C17": dict(
         text="compute_hessian is symbolically executed (two nested symbolic loops, list specifications for the rows): entry "
